@@ -418,12 +418,12 @@ def check_case(case, props):
                     viol('repeat-raises', 'do_math() raised %r after repetition step %d (%s)' % (e, i, op['op']), ['rep_' + op['op']])
                     break
                 if now_p != dp:
-                    viol('cached-primal-changed', 'the cached primal form changed after repetition step %d: %s %s %s (history %s)'
+                    viol('cached-primal-changed:' + op['op'], 'the cached primal form changed after repetition step %d: %s %s %s (history %s)'
                          % (i, op['op'], op.get('solver', ''), op.get('fault', ''), [(o['op'], o.get('solver')) for o in case['reps'][:i]]),
                          ['rep_' + op['op']] + (['fault'] if op.get('fault') else []))
                     break
                 if dd is not None and now_d != dd:
-                    viol('cached-dual-changed', 'the dual form changed after repetition step %d: %s %s (history %s)'
+                    viol('cached-dual-changed:' + op['op'], 'the dual form changed after repetition step %d: %s %s (history %s)'
                          % (i, op['op'], op.get('solver', ''), [(o['op'], o.get('solver')) for o in case['reps'][:i]]),
                          ['rep_' + op['op']])
                     break
